@@ -32,6 +32,7 @@ type SpecEnv struct {
 	preferNames bool // loop invariants: source variables denote their current values
 	frNames *Frame // additional frame whose source variables are visible (the closure running inside a spec loop)
 	cur  *State // the post-state while evaluating inside old(...)
+	freshBase *Term // a callee's contract evaluated at a call site: `fresh` is relative to the allocation counter at the call
 }
 
 func (e *Engine) specEnv(st, old *State, fr *Frame) *SpecEnv {
@@ -124,7 +125,24 @@ func (e *Engine) specType(name string, se *SpecEnv) types.Type {
 	if p := e.pkgs[se.pkg]; p != nil {
 		if m := p.Members[name]; m != nil {
 			if tn, ok := m.(*ssa.Type); ok {
-				return tn.Type()
+				t := tn.Type()
+				// a generic named type: instantiate it with the type parameters of the function in scope (same arity,
+				// positionally: readOnly[K, V] inside a method of Map[K, V])
+				if nt, ok := t.(*types.Named); ok && nt.TypeParams().Len() > 0 {
+					for fr := se.fr; fr != nil; fr = fr.parent {
+						if fr.fn == nil || fr.fn.TypeParams() == nil || fr.fn.TypeParams().Len() != nt.TypeParams().Len() {
+							continue
+						}
+						var targs []types.Type
+						for i := 0; i < fr.fn.TypeParams().Len(); i++ {
+							targs = append(targs, fr.fn.TypeParams().At(i))
+						}
+						if inst, err := types.Instantiate(nil, nt, targs, false); err == nil {
+							return resolve(inst, se.env)
+						}
+					}
+				}
+				return t
 			}
 		}
 	}
@@ -467,8 +485,10 @@ func (e *Engine) specIndex(a, i Val, se *SpecEnv) Val {
 func (e *Engine) specField(a Val, name string, se *SpecEnv) Val {
 	t := a.T
 	// automatic dereference
+	var ploc *Loc
 	if pt, ok := t.Underlying().(*types.Pointer); ok {
-		a = e.loadLoc(se.st, e.locOf(a))
+		ploc = e.locOf(a)
+		a = e.loadLoc(se.st, ploc)
 		t = pt.Elem()
 		a.T = t
 	}
@@ -479,6 +499,19 @@ func (e *Engine) specField(a Val, name string, se *SpecEnv) Val {
 	for i := 0; i < stt.NumFields(); i++ {
 		if stt.Field(i).Name() == name {
 			off, n := e.lay.fieldRange(stt, i)
+			if ploc != nil && ploc.Kind == LocObj {
+				// a named struct embedded by value lives at a sub-reference of the enclosing object (exactly as the
+				// code's &x.f does): read it from there
+				ft := resolve(stt.Field(i).Type(), se.env)
+				if _, isStruct := ft.Underlying().(*types.Struct); isStruct {
+					if _, named := ft.(*types.Named); named {
+						sub := e.subRef(ploc.Ref, ploc.Root, ploc.Off+off)
+						v := e.loadLoc(se.st, e.locOf(Val{T: types.NewPointer(ft), L: []Term{sub}}))
+						v.T = ft
+						return v
+					}
+				}
+			}
 			return Val{T: resolve(stt.Field(i).Type(), se.env), L: a.L[off : off+n]}
 		}
 	}
@@ -655,9 +688,9 @@ func (e *Engine) evalCall(x *Expr, se *SpecEnv) Val {
 			return mkBool(False) // no such value on this path (e.g. an action argument that does not exist)
 		}
 		if _, isPtr := a.T.Underlying().(*types.Pointer); isPtr || mapTypeOf(a.T) != nil {
-			return mkBool(Ge(e.allocID(a.L[0]), e.next0))
+			return mkBool(Ge(e.allocID(a.L[0]), se.freshFrom()))
 		}
-		return mkBool(Ge(a.L[0], e.next0))
+		return mkBool(Ge(a.L[0], se.freshFrom()))
 	case "allocated":
 		a := arg(0)
 		return mkBool(And(Lt(IntLit(0), a.L[0]), Lt(a.L[0], se.st.next)))
@@ -1085,6 +1118,11 @@ func (e *Engine) evalCall(x *Expr, se *SpecEnv) Val {
 	case "iface":
 		// iface(v): the interface value holding v (as produced by converting v to `any`)
 		return e.makeInterface(se.st, arg(0), types.NewInterfaceType(nil, nil))
+	case "deref":
+		// deref(p, T): the T object an (unsafe) pointer p points to
+		pv := arg(0)
+		t := e.specType(x.Args[1].Name, se)
+		return e.loadLoc(se.st, e.locOf(Val{T: types.NewPointer(t), L: []Term{pv.L[0]}}))
 	case "unbox":
 		// unbox(i, T): the value of type T held by interface value i
 		return e.unbox(arg(0).L[1], e.specType(x.Args[1].Name, se))
@@ -1535,4 +1573,11 @@ func (e *Engine) evalConcreteFn(fv Val, name string, args []Val, se *SpecEnv) Va
 		res = n
 	}
 	return res
+}
+
+func (se *SpecEnv) freshFrom() Term {
+	if se.freshBase != nil {
+		return *se.freshBase
+	}
+	return se.e.next0
 }
